@@ -28,7 +28,9 @@ EXTENDS Integers, Sequences, FiniteSets
 
 CONSTANTS N,               \* connections 1..N
           Shapes,          \* set of size assignments: sequences over {"S", "L"} of length N
-          PoolStaleLen, PoolDoublePut
+          PoolStaleLen, PoolDoublePut,
+          Quiesce          \* TRUE: a client acts only when the proxy has nothing left to do (the schedules the
+                           \* harness can enforce: it waits for the observable effect of every action)
 
 VARIABLES shape,           \* the sizes of this session
           cpc,             \* client: next action of each connection: "open","w1","w2","data","fin","end"
@@ -63,8 +65,16 @@ Active == { i \in C : cpc[i] \notin {"open", "end"} }
 PrevOpened(i) == IF i = 1 THEN TRUE ELSE cpc[i - 1] # "open"
 CanOpen(i) == /\ cpc[i] = "open" /\ PrevOpened(i) /\ Cardinality(Active) < 2
 
+\* what the proxy can do next
+CanStart(i) == ppc[i] = "idle" /\ inq[i] # <<>> /\ inq[i][1] # 0
+CanRead(i) == ppc[i] = "read" /\ fill[i] < need[i] /\ inq[i] # <<>>
+CanRoute(i) == ppc[i] = "read" /\ fill[i] = need[i]
+CanForward(i) == ppc[i] = "fwd" /\ inq[i] # <<>>
+ProxyBusy == \E i \in C : CanStart(i) \/ CanRead(i) \/ CanRoute(i) \/ CanForward(i)
+
 Client(i, act, nextpc, sent) ==
     /\ cpc[i] = act
+    /\ (Quiesce => ~ProxyBusy)
     /\ cpc' = [cpc EXCEPT ![i] = nextpc]
     /\ inq' = [inq EXCEPT ![i] = @ \o sent]
     /\ sched' = Append(sched, <<i, act>>)
